@@ -220,6 +220,7 @@ func (l *CallLog) add(kind string, id int, args []string) {
 }
 
 var callbackErr error = fmt.Errorf("callback failed: 100%% plain error")
+var callbackErrWrapping error = fmt.Errorf("callback failed, nested parser said: %w", &flags.Error{Type: flags.ErrRequired, Message: "inner requirement"})
 
 type sentinelErr struct{ id int }
 
@@ -595,6 +596,11 @@ func makeCallback(o *Opt, log *CallLog) reflect.Value {
 		}
 		if o.T.W == WFunc1Err || o.T.W == WFunc0Err {
 			if o.CallbackErr {
+				if o.ID%2 == 1 {
+					// an ordinary error that WRAPS a *flags.Error (e.g. the failure of a nested parser, passed on with
+					// %w): still an ordinary error
+					return []reflect.Value{reflect.ValueOf(&callbackErrWrapping).Elem()}
+				}
 				return []reflect.Value{reflect.ValueOf(&callbackErr).Elem()}
 			}
 			return []reflect.Value{reflect.Zero(tError)}
